@@ -192,10 +192,33 @@ func RunWorker(e Engine, c *Ctx, from, to, stride int, outPath, progressPath, ha
 	}
 	// CPU-time watchdog: process CPU consumed while one case is running. Load independent.
 	go func() {
+		lastCPU, lastMove := cpuTime(), time.Now()
 		for {
 			time.Sleep(50 * time.Millisecond)
 			if !st.busy.Load() {
+				lastCPU, lastMove = cpuTime(), time.Now()
 				continue
+			}
+			// idle-deadlock rule: a case is running, yet the whole process has burnt (almost) no CPU
+			// (under 1% of one core) over a two-minute window and some goroutine is parked under an imagemeta frame. CPU-idle is
+			// what separates this from a slow machine; without an imagemeta frame it is the
+			// harness that waits and the driver's wall-clock watchdog (inconclusive) applies.
+			if time.Since(lastMove) < 120*time.Second {
+				// window still open
+			} else if now := cpuTime(); now-lastCPU > 1200*time.Millisecond {
+				lastCPU, lastMove = now, time.Now() // more than 1% of one core over the window: working
+			} else {
+				buf := make([]byte, 1<<20)
+				n := runtime.Stack(buf, true)
+				dump := string(buf[:n])
+				if strings.Contains(dump, "github.com/evanoberholster/imagemeta") {
+					idx := int(st.curIndex.Load())
+					msg := fmt.Sprintf("%d\n%s\nidle-deadlock no_cpu_for_s=%.0f\n%s", idx, c.Phase(), time.Since(lastMove).Seconds(), dump)
+					_ = os.WriteFile(hangPath, []byte(msg), 0o644)
+					_ = rec.flush(outPath, false, idx)
+					os.Exit(4)
+				}
+				lastCPU, lastMove = cpuTime(), time.Now()
 			}
 			used := int64(cpuTime()) - st.caseStart.Load()
 			if b := st.budget.Load(); b > 0 && used > b {
